@@ -225,6 +225,15 @@ def post_mortem_cases(ctx):
         for l in w["layers"]:
             if l["kind"] != "unit":
                 l["testSetUp"] = l["testTearDown"] = True
+        # (a test that raises in a layer with per-test hooks, in every case)
+        cand = [t for t in w["tests"] if w["layers"][t["layer"]]["kind"] != "unit"]
+        if cand:
+            t = rng.choice(cand)
+            nt = worlds.gen_test(rng, t["id"], [1], kind=rng.choice(["error", "fail"]), p_write=0.0)
+            nt["layer"], nt["module"] = t["layer"], t["module"]
+            for k in ("doctest", "rebind", "ownstream", "label"):
+                nt.pop(k, None)
+            w["tests"][w["tests"].index(t)] = nt
         cases.append(cw.Case(w, {"verbose": 1, "post_mortem": True, "_stdin": "c\n" * 30, "_timeout": 60}, "post-mortem"))
     cw.run_real_cases(ctx, cases)
     for c in cases:
